@@ -98,6 +98,63 @@ fn c04_sweep<T: Elem>(st: &mut Stats, args: &Args, lengths: &[usize], planners: 
             }
             st.set_distinct(&format!("{}|{}|{}", pk.name(), T::NAME, n));
         }
+        // history-aware planning: one planner is first asked for up to three proper divisors of n (ascending, so that
+        // they lie on n's radix chain and land in the planner's caches), then for n itself, same and mixed directions
+        for &n in lengths {
+            if n < 4 {
+                continue;
+            }
+            let mut rng = Rng::new(mix(&[args.seed, n as u64, pk as u64, 0xD1]));
+            let mut divs: Vec<usize> = vec![];
+            let mut m = n;
+            for p in [2usize, 2, 2, 3, 3, 5, 7, 11, 2, 2, 2, 3] {
+                if m % p == 0 && m / p >= 2 {
+                    m /= p;
+                    if rng.chance(0.6) {
+                        divs.push(m);
+                    }
+                }
+            }
+            divs.sort();
+            divs.dedup();
+            if divs.len() > 3 {
+                let drop = divs.len() - 3;
+                divs.drain(0..drop);
+            }
+            if divs.is_empty() {
+                continue;
+            }
+            for variant in 0..2 {
+                let mut planner = AnyPlanner::<T>::new(pk).unwrap();
+                let main_dir = if (n + variant) % 2 == 0 { Dir::Fwd } else { Dir::Inv };
+                let mut reqs: Vec<(usize, Dir)> = divs
+                    .iter()
+                    .enumerate()
+                    .map(|(i, d)| (*d, if variant == 1 && i % 2 == 1 { if main_dir == Dir::Fwd { Dir::Inv } else { Dir::Fwd } } else { main_dir }))
+                    .collect();
+                reqs.push((n, main_dir));
+                for (len, dir) in reqs.iter().copied() {
+                    let case = format!("planner={} type={} dir={} n={} via=planner-with-history{:?}", pk.name(), T::NAME, dname(dir), len,
+                        reqs.iter().map(|(l, d)| format!("{}{}", l, if *d == Dir::Fwd { "f" } else { "i" })).collect::<Vec<_>>());
+                    match try_plan(&mut planner, len, dir, false) {
+                        Ok(fft) => {
+                            st.inc("history_planner_requests");
+                            st.inc("evaluations");
+                            if fft.len() != len || !dir_ok(&*fft, dir) {
+                                st.violation("C04", "c04", &case, vec![
+                                    ("what", J::s("wrong reported length/direction from a planner that had planned related lengths before")),
+                                    ("reported_len", J::u(fft.len())),
+                                ]);
+                            }
+                        }
+                        Err(m) => {
+                            st.violation("C04", "c04", &case, vec![("what", J::s("planner panicked")), ("panic", J::s(&m))]);
+                            break;
+                        }
+                    }
+                }
+            }
+        }
         // one long-lived planner per window of 64 consecutive lengths of this shard
         for window in lengths.chunks(64) {
             let mut planner = AnyPlanner::<T>::new(pk).unwrap();
@@ -120,7 +177,9 @@ fn c04_sweep<T: Elem>(st: &mut Stats, args: &Args, lengths: &[usize], planners: 
 }
 
 /// Plan-only sweep through the plan-report hook: recipe length == n, no panic. Also used by C05 (naive nodes).
-fn plan_only<T: Elem>(st: &mut Stats, prop: &str, args: &Args, lo: usize, hi: usize, planners: &[PK], check_naive: bool) {
+fn plan_only<T: Elem>(st: &mut Stats, prop: &str, args: &Args, lo: usize, hi: usize, planners: &[PK], check_naive: bool) -> Vec<usize> {
+    // lengths whose *portable* plan nests Rader/Bluestein deepest (largest first): candidates for actual operation counting
+    let mut deepest: Vec<(usize, usize)> = vec![];
     for &pk in planners {
         if pk == PK::Auto {
             continue; // Auto delegates to one of the concrete planners, which are swept directly
@@ -158,7 +217,15 @@ fn plan_only<T: Elem>(st: &mut Stats, prop: &str, args: &Args, lo: usize, hi: us
                                 st.violation(prop, "plan-only", &case, vec![("what", J::s("plan contains a naive O(n^2) DFT node longer than 32")), ("node_len", J::u(m)), ("plan", J::s(&text))]);
                             }
                         }
-                        st.max("max_nesting_depth", text.matches("Inner").count() + text.matches("RadersAlgorithm").count() + text.matches("BluesteinsAlgorithm").count());
+                        let depth = text.matches("Inner").count() + text.matches("RadersAlgorithm").count() + text.matches("BluesteinsAlgorithm").count();
+                        st.max("max_nesting_depth", depth);
+                        if pk == PK::Scalar && depth >= 2 {
+                            deepest.push((depth, n));
+                            if deepest.len() > 64 {
+                                deepest.sort_by(|a, b| b.cmp(a));
+                                deepest.truncate(8);
+                            }
+                        }
                     }
                     if n % 4099 == 7 || n == hi {
                         for k in kinds_in(&text) {
@@ -173,6 +240,9 @@ fn plan_only<T: Elem>(st: &mut Stats, prop: &str, args: &Args, lo: usize, hi: us
             n += args.shard.1;
         }
     }
+    deepest.sort_by(|a, b| b.cmp(a));
+    deepest.truncate(3);
+    deepest.into_iter().map(|(_, n)| n).collect()
 }
 
 /// Largest m in any `Dft(m)` token of a plan text
@@ -246,8 +316,8 @@ pub fn run_c04(args: &Args) {
         }
         // plan-only sweep through the hook
         let hi = args.get_usize("plan-only-max").unwrap_or(if t { 1 << 22 } else { 1 << 18 });
-        plan_only::<f64>(&mut st, "C04", args, 0, hi, &planners, false);
-        plan_only::<f32>(&mut st, "C04", args, 0, hi, &planners, false);
+        let _ = plan_only::<f64>(&mut st, "C04", args, 0, hi, &planners, false);
+        let _ = plan_only::<f32>(&mut st, "C04", args, 0, hi, &planners, false);
         st.max("max_plan_only_n", hi);
         if t && args.shard.0 == 0 {
             // a few dozen structured lengths up to 2^26, plan-only (f32 sqrt factorisation limit lies above 2^24)
@@ -390,8 +460,8 @@ pub fn run_c05(args: &Args) {
         c05_scratch::<f32>(&mut st, args, &[n]);
         c05_scratch::<f64>(&mut st, args, &[n]);
         let sh = Args { cmd: String::new(), opts: Default::default(), tier_thorough: t, seed: args.seed, shard: (0, 1) };
-        plan_only::<f64>(&mut st, "C05", &sh, n, n, &ALL_PK, true);
-        plan_only::<f32>(&mut st, "C05", &sh, n, n, &ALL_PK, true);
+        let _ = plan_only::<f64>(&mut st, "C05", &sh, n, n, &ALL_PK, true);
+        let _ = plan_only::<f32>(&mut st, "C05", &sh, n, n, &ALL_PK, true);
         st.emit_summary();
         return;
     }
@@ -418,10 +488,18 @@ pub fn run_c05(args: &Args) {
         c05_scratch::<f64>(&mut st, args, &lengths);
     }
     if part == "all" || part == "plans" {
-        let hi = args.get_usize("plan-only-max").unwrap_or(if t { 1 << 22 } else { 1 << 18 });
-        plan_only::<f64>(&mut st, "C05", args, 0, hi, &ALL_PK, true);
-        plan_only::<f32>(&mut st, "C05", args, 0, hi, &ALL_PK, true);
+        let hi = args.get_usize("plan-only-max").unwrap_or(if t { 1 << 22 } else { 1 << 20 });
+        let candidates = plan_only::<f64>(&mut st, "C05", args, 0, hi, &ALL_PK, true);
+        let _ = plan_only::<f32>(&mut st, "C05", args, 0, hi, &ALL_PK, true);
         st.max("max_plan_only_n", hi);
+        // workload selection guided by the hook: count for real the lengths whose portable plan nests Rader/Bluestein deepest
+        if part == "all" {
+            st.add("deep_nesting_candidates_counted", candidates.len());
+            for c in &candidates {
+                st.set("deep_nesting_candidates", &c.to_string());
+            }
+            c05_counts(&mut st, args, &candidates);
+        }
     }
     st.emit_summary();
 }
@@ -572,6 +650,18 @@ pub fn run_c06(args: &Args) {
         if t { 400 } else { 90 },
         0xC06,
     );
+    let mut lengths = lengths;
+    // prime sweep: primes are where the special algorithms (Rader, Bluestein) and their number theory live; the round trip
+    // is oracle-free, so every prime up to the bound is affordable
+    if args.get("only-n").is_none() && args.get("ns").is_none() {
+        let dense_max = args.get_usize("dense-max").unwrap_or(if t { 32768 } else { 2048 });
+        let prime_max = args.get_usize("prime-max").unwrap_or(if t { 131072 } else { 20000 });
+        let primes: Vec<usize> = (dense_max + 1..=prime_max).filter(|n| crate::cases::is_prime(*n)).collect();
+        st.add("primes_in_sweep", primes.iter().enumerate().filter(|(i, _)| crate::cases::mine(*i, args.shard)).count());
+        lengths.extend(primes.iter().enumerate().filter(|(i, _)| crate::cases::mine(*i, args.shard)).map(|(_, n)| *n));
+        lengths.sort();
+        lengths.dedup();
+    }
     let types = args.get("types").unwrap_or("f32,f64").to_string();
     if types.contains("f32") {
         c06_type::<f32>(&mut st, args, &lengths);
